@@ -84,15 +84,16 @@ func (mgr *GCMgr) UpdateCollision(bkt *Bucket, ki *KeyInfo, oldPos, newPos Posit
 }
 
 func (mgr *GCMgr) UpdateHtreePos(bkt *Bucket, ki *KeyInfo, oldPos, newPos Position) {
-	// TODO: should be a api of htree to be atomic
-	meta, _, ok := bkt.htree.get(ki)
-	if !ok {
-		logger.Warnf("old key removed when updating pos bucket %d %s %#v %#v",
-			bkt.ID, ki.StringKey, meta, oldPos)
-		return
-	}
+	// only repoint an item that still points at the record GC has just copied: a client may have
+	// written the key since GC looked at it
+	updated, found := bkt.htree.updatePos(ki, oldPos, newPos)
 	verifhook.Point("gc.repoint.got", bkt.ID, ki.StringKey, oldPos, newPos)
-	bkt.htree.set(ki, meta, newPos)
+	if !found {
+		logger.Warnf("old key removed when updating pos bucket %d %s %#v",
+			bkt.ID, ki.StringKey, oldPos)
+	} else if !updated {
+		logger.Infof("key %s changed during gc, keep its new position", ki.StringKey)
+	}
 }
 
 func (mgr *GCMgr) BeforeBucket(bkt *Bucket, startChunkID, endChunkID int, merge bool) {
